@@ -1,4 +1,5 @@
 #!/bin/bash
+VROOT="$(cd "$(dirname "${BASH_SOURCE[0]}")/.." && pwd)"
 # try_seed.sh <seed-id> <property> [tier]: apply a seeded change in a scratch worktree of /repo (SEED_REPO, or a fresh one that is
 # removed afterwards), point the check at it with CV_REPO, run the check, undo the change.  /repo itself is never touched.
 id="$1"; pid="$2"; tier="${3:-quick}"
@@ -9,8 +10,8 @@ if [ -z "${SEED_REPO:-}" ]; then
   own=1
 fi
 repo="$SEED_REPO"
-git -C "$repo" apply /verif/seeded/$id/patch.diff || { [ -n "$own" ] && git -C /repo worktree remove --force "$repo"; exit 2; }
-cd /verif && CV_REPO="$repo" timeout 3000 ./check $pid --tier $tier > /tmp/try-$id-$pid.out 2>&1; rc=$?
+git -C "$repo" apply $VROOT/seeded/$id/patch.diff || { [ -n "$own" ] && git -C /repo worktree remove --force "$repo"; exit 2; }
+cd "$VROOT" && CV_REPO="$repo" timeout 3000 ./check $pid --tier $tier > /tmp/try-$id-$pid.out 2>&1; rc=$?
 git -C "$repo" checkout -- .
 echo "$id on $pid: exit=$rc; $(grep -c '^VIOLATION' /tmp/try-$id-$pid.out) violation lines; $(grep '^VIOLATION' /tmp/try-$id-$pid.out | head -1)"
 [ -n "$(git -C "$repo" status --short)" ] && echo "WARNING: $repo not clean"
